@@ -3,6 +3,7 @@ package props
 import (
 	"context"
 	"fmt"
+	"runtime"
 	"sync"
 
 	goat "github.com/avos-io/goat"
@@ -25,7 +26,7 @@ type c14Case struct {
 	GMP      int  `json:"gomaxprocs"`
 }
 
-var c14Outcomes = []string{"unary-ok", "unary-error", "unary-cancel", "unary-deadline", "stream-ok", "stream-error", "stream-cancel", "stream-deadline", "stream-server-reset", "stream-early-return"}
+var c14Outcomes = []string{"unary-ok", "unary-error", "unary-cancel", "unary-deadline", "stream-ok", "stream-error", "stream-cancel", "stream-deadline", "stream-server-reset", "stream-early-return", "stream-cancel-abandon"}
 
 func c14Gen(tier string, seed int64, idx int) c14Case {
 	r := rng(seed, idx, "c14")
@@ -258,6 +259,26 @@ func c14One(cc grpc.ClientConnInterface, b *bed.Bed, gates *Gates, tag, outcome 
 				}
 				cops = append(cops, Op{Op: end}, Op{Op: "recvAll"})
 			}
+		case "stream-cancel-abandon":
+			// the caller cancels with responses unread and never touches the stream again
+			if kind == "client" {
+				kind = "bidi"
+			}
+			hops = []Op{{Op: "send", N: 1 + k, Size: 17}, {Op: "waitCtx"}}
+			if kind == "server" {
+				hops = append([]Op{{Op: "recv", N: 1}}, hops...)
+			}
+			cops = []Op{{Op: "gate", Gate: "abandon/" + tag}, {Op: "cancel"}}
+			if k%2 == 1 {
+				cops = []Op{{Op: "gate", Gate: "abandon/" + tag}, {Op: "fire"}}
+			}
+			go func() {
+				// cancel once the handler's messages are on their way (bounded: the gate opens in any case)
+				for i := 0; i < 50; i++ {
+					runtime.Gosched()
+				}
+				gates.Open("abandon/" + tag)
+			}()
 		case "stream-server-reset", "stream-early-return":
 			// handler returns after one message; the caller keeps sending (late bodies are answered by resets)
 			if kind == "server" {
@@ -285,7 +306,7 @@ func init() {
 	core.Register(&core.Prop{
 		ID:    "C14",
 		Level: "exploration",
-		Rule:  "each case is one long history on ONE connection: rounds of 1..32 concurrent RPCs with outcomes drawn from {unary ok/error/cancel/deadline, stream ok/error/cancel/deadline/server-reset/early-return} x 3 stream kinds, plus (every 4th round) opens whose transport write fails; after every round the driver waits for a provably final state and samples client registry size, server stream registry size and the number of goroutines with goat frames against the idle level. evaluations = RPCs executed; a case is non-trivial when all 11 outcome classes occurred in its history; distinct = distinct (parameters, seed index).",
+		Rule:  "each case is one long history on ONE connection: rounds of 1..32 concurrent RPCs with outcomes drawn from {unary ok/error/cancel/deadline, stream ok/error/cancel/deadline/server-reset/early-return/cancel-with-responses-unread-and-never-touched-again} x 3 stream kinds, plus (every 4th round) opens whose transport write fails; after every round the driver waits for a provably final state and samples client registry size, server stream registry size and the number of goroutines with goat frames against the idle level. evaluations = RPCs executed; a case is non-trivial when all 12 outcome classes occurred in its history; distinct = distinct (parameters, seed index).",
 		Plan:  func(tier string, seed int64) int { return tierN(tier, 80, 640) },
 		Run:   c14Run,
 		MaxStats: []string{"idle_goat_goroutines"},
